@@ -638,6 +638,48 @@ func ruleStepAccounting(c *Ctx) {
 	}, isNilConst)
 	c.need(rule, leave, "call DemoteVoter.ConfVerChanged", instrCallMatcher(dvCV), []Ev{present}, all,
 		"a demoted voter is consulted only while a peer still exists on its store (looked up by store id): once a later step removed it, its demotion stays accounted for")
+	// siblings: every step that names the peer it acts on (a PeerID field) decides "my change was applied"
+	// by comparing the id of the peer found on its store with that PeerID — the store alone is not enough
+	// once a later step of the same operator put another peer there
+	getPeerID := F(P.Method("github.com/pingcap/kvproto/pkg/metapb", "Peer", "GetId"))
+	pk := P.pkg(op).Types
+	names := pk.Scope().Names()
+	n := 0
+	for _, name := range names {
+		tn, ok := pk.Scope().Lookup(name).(*types.TypeName)
+		if !ok {
+			continue
+		}
+		st, ok := tn.Type().Underlying().(*types.Struct)
+		if !ok {
+			continue
+		}
+		var pid *types.Var
+		for i := 0; i < st.NumFields(); i++ {
+			if st.Field(i).Name() == "PeerID" {
+				pid = st.Field(i)
+			}
+		}
+		if pid == nil {
+			continue
+		}
+		m := P.methodOpt(op, name, "ConfVerChanged")
+		if m == nil {
+			continue
+		}
+		n++
+		isPID := func(v ssa.Value) bool { return isLoadOf(v, pid) || fieldOfField(strip(v)) == pid }
+		okCmp := false
+		for _, f := range withCallees(m, 1) {
+			if hasComparison(f, "== !=", resultOfCall(getPeerID), isPID) {
+				okCmp = true
+			}
+		}
+		c.Check(okCmp, rule, "("+name+").ConfVerChanged", "compares the id of the peer found in the region with the step's own PeerID", P.pos(m.Pos()), "")
+	}
+	if n < 4 {
+		c.Undec(rule, "steps with a PeerID", "at least 4 with a ConfVerChanged method", "", fmt.Sprint(n))
+	}
 }
 
 func init() {
